@@ -91,8 +91,15 @@ def rule_dof_guard(F, ev, R, config, rule="R-DOF-GUARD", checked=True):
     try:
         role = dof_role(F, ev)
     except AnchorMissing as e:
-        R.bad(rule, config, "-", "anchor-missing", str(e))
-        return
+        # no stored role: the degrees of freedom the constructor itself uses (the divisor of the reduced χ²), provided the
+        # accessor derives its own from stored shapes (stats_roles checks that)
+        role = None
+        try:
+            from rules_stats2 import stats_roles
+            sr_ = stats_roles(F, ev)
+        except AnchorMissing as e2:
+            R.bad(rule, config, "-", "anchor-missing", str(e2))
+            return
     ctors = stats_ctor_bodies(F)
     if not ctors:
         R.bad(rule, config, "-", "anchor-missing", "no constructor of FitStatistics found")
@@ -102,7 +109,14 @@ def rule_dof_guard(F, ev, R, config, rule="R-DOF-GUARD", checked=True):
         env = Env(b)
         ev.fresh_ctx()
         agg = ev.rvalue(env, s["rv"], (bi, si))
-        dof = dict(agg[3]).get(role)
+        if role is not None:
+            dof = dict(agg[3]).get(role)
+        else:
+            dof = None
+            chi = dict(agg[3]).get(sr_["chi2"])
+            for x in walk(chi) if chi else []:
+                if x[0] == "call" and x[1].endswith("from_usize") and x[3] and match_dof(x[3][0]) is not None:
+                    dof = x[3][0]
         md = match_dof(dof) if dof else None
         if md is None:
             R.bad(rule, config, b.key, "dof-term",
